@@ -56,7 +56,7 @@ def _work(inp):
         traces, info = E.record(inp["cfg"], inp["cands"], inp["ballots"], mode=inp.get("mode", "explore"),
                                 max_paths=inp.get("max_paths", 300), names=inp.get("names"), cand_order=inp.get("cand_order"),
                                 seed=inp.get("seed", 0))
-    except Exception as ex:  # machinery problem inside the recorder
+    except BaseException as ex:  # machinery problem inside the recorder (BaseException: a dying worker would hang the pool)
         return [{"_machinery": "%s: %s" % (type(ex).__name__, ex), "_inp": inp}]
     for t in traces:
         t["_inp"] = inp
